@@ -112,6 +112,7 @@ def two_module_sort(binp, rep, thorough, docs=None):
         allev += evs
         owner += [i] * len(evs)
     nev = len(allev)
+    nrej = 0
     while allev:
         ok, irej = c15.ideal_accepts(allev)
         if ok:
@@ -121,6 +122,9 @@ def two_module_sort(binp, rep, thorough, docs=None):
         rep.violation("sort:order:two-modules", f"sort() of a file with two MODULEs violates IdealSortFull (event {allev[d]['ev']} of load/sort/sort per module)", {"kind": "sort2", "a": mo[i]["a"]})
         k = next((j for j in range(d, len(owner)) if owner[j] != i), len(owner))
         allev, owner = allev[k:], owner[k:]
+        nrej += 1
+        if nrej >= 6:
+            break
     return len(mo), nev
 
 
@@ -171,6 +175,7 @@ def run(tier, selftest):
     with open(tpx) as f:
         xev = [json.loads(l) for l in f if l.strip()]
     nsort_tr += sum(1 for e in xev if e["ev"] == "sort")
+    nxv = 0
     while xev:
         ok, irej = c15.ideal_accepts(xev)
         if ok:
@@ -183,6 +188,9 @@ def run(tier, selftest):
                       f"history on a module with singletons / IF_DATA / USER_RIGHTS violates the relations of C14 / C15 (Trace_PlacementIdeal rejects event {d}: {json.dumps({k: bad[k] for k in bad if k != 'lists'})[:300]})",
                       {"kind": "history", "events": xev[start:end]})
         xev = xev[end:]
+        nxv += 1
+        if nxv >= 6:
+            break
 
     n2, nev2 = two_module_sort(binp, rep, thorough)
 
